@@ -9,6 +9,7 @@ type Profile struct {
 	WatchersMin, WatchersMax   int
 	ConsumersMin, ConsumersMax int
 	Registrar                  bool
+	BulkOneIn                  int  // one run in this many builds a backlog of thousands of deleted objects (0: never)
 	GhostTable                 bool // some WriteTxn requests name a table that is not registered and are rejected
 	RegistrarOdds              int  // the registrar takes part in one of this many runs (default 2)
 	Prober                     bool
@@ -136,6 +137,13 @@ func profileFor(prop, tier string) *Profile {
 		p.IndexPct = 20
 		p.BatteryQueries = 4
 		p.ReadProp = "C05"
+		// committed writes that do not move the table revision: initializer registrations and marks,
+		// change-iterator registrations and closes
+		p.OpWeights[OpRegInit] = 3
+		p.OpWeights[OpDoneInit] = 3
+		p.OpWeights[OpChanges] = 2
+		p.InitCheck = true
+		p.ConsumersMax = 1
 	case "C06":
 		p.OpWeights[OpBurst] = 8
 		p.WatchesMin, p.WatchesMax = 3, 10
@@ -159,6 +167,7 @@ func profileFor(prop, tier string) *Profile {
 		p.PausePoints = append(append([]string{}, commitPoints...), gcPoints...)
 		p.TablesMax = 2
 	case "C08":
+		p.BulkOneIn = 100
 		p.ConsumersMin, p.ConsumersMax = 1, 3
 		p.WritersMin, p.WritersMax = 1, 3
 		p.OpWeights[OpChanges] = 3
@@ -181,6 +190,7 @@ func profileFor(prop, tier string) *Profile {
 		p.CommitCheck = true
 	case "C10":
 		p.GhostTable = true
+		p.BulkOneIn = 60
 		p.TablesMin, p.TablesMax = 2, 6
 		p.WritersMin, p.WritersMax = 2, 6
 		p.Registrar = true
